@@ -350,6 +350,45 @@ def run(ctx, report):
             else:
                 R3.violation(inst, 'mode:detect:u32-nobreak', 'a 32-bit register no longer ends the operand-mode detection: a later 16-bit operand can override it', where(arch, st))
 
+    from ..consteval import Evaluator as _Ev3, Obj as _Obj3, Native as _Nat3, NotConst as _NC3
+    # a register the table fixes (the dx port of in/out) does not select the operand size: the detection loop is evaluated on the
+    # operand lists of every row with a fixed 16-bit register operand
+    afs_ = X.afs
+    fixed16 = [k for k in ('r_dx',) if isinstance(E.get(k), dict) and E[k].get(afs_.size) == afs_.u16]
+    n_fixed = 0
+    seen_rows = set()
+    for row, opc, nm in X.variants:
+        for fk in fixed16:
+            if E[fk] not in list(row.rm) or E['r_eax'] not in list(row.rm) or row.idx in seen_rows:
+                continue
+            seen_rows.add(row.idx)
+            for acc_size in (afs_.u08, afs_.u16, afs_.u32):
+                acc = {0: 1, afs_.ad: False, afs_.size: acc_size}
+                ops = [dict(E[fk]) if d == E[fk] else dict(acc) for d in row.rm if d in (E[fk], E['r_eax'])]
+                me3 = _Obj3('self')
+                me3.mnemo_mode = None
+                scope = dict(E)
+                scope.update({'self': me3, 'name': row.name, 'args_eval': ops, 'x86_afs': afs_, 'u16': afs_.u16, 'u32': afs_.u32, 'u08': afs_.u08})
+                for fname_, fnode_ in arch.funcs.items():
+                    scope.setdefault(fname_, fnode_)
+                ev3 = _Ev3({})
+                ev3.env = scope
+                try:
+                    ev3.exec_stmts([det], scope)
+                except _NC3 as e:
+                    raise AnalysisError('asm_candidates: operand-mode detection loop not evaluable on %s: %s' % (row.name, e))
+                got = me3.mnemo_mode or afs_.u32
+                want = afs_.u16 if acc_size == afs_.u16 else afs_.u32
+                inst = 'mode-detection:%s:%s:%s' % (row.name, ' '.join('%02X' % b for b in row.opc), acc_size)
+                n_fixed += 1
+                if got == want:
+                    R3.ok(inst, sample='%s with a %s accumulator and the fixed register %s: mode %s' % (row.name, acc_size, fk[2:], got))
+                else:
+                    R3.violation(inst, 'mode:detect:fixed-reg:%s:%s' % (row.name, acc_size), 'the fixed 16-bit register %s of `%s` selects the 16-bit operand size although the data operand is %s: '
+                                 'the candidate gets a 0x66 prefix' % (fk[2:], row.name, acc_size), where(arch, det), witness="asm('in al, dx') == [66 ec]")
+    if n_fixed < 6:
+        raise AnalysisError('rows with a fixed 16-bit register operand (in/out dx): %d evaluations, expected at least 6' % n_fixed)
+
     # MMX/SSE rows never take part in the 16/32-bit operand-mode detection (0x66 is their mandatory prefix)
     cb = None
     for n in walk_no_nested(ac):
@@ -357,7 +396,6 @@ def run(ctx, report):
             cb = n
     if cb is None:
         raise AnalysisError('asm_candidates: the loop that clears can_be_16_32 was not found')
-    from ..consteval import Evaluator as _Ev3, Obj as _Obj3, Native as _Nat3, NotConst as _NC3
     for label, mods in (('mmx', {'mmx': True}), ('sd', {'sd': True}), ('wd', {'wd': True}), ('plain', {})):
         cobj = _Obj3('c')
         base = dict((E[k], None) for k in ('w8', 'se', 'sw', 'sd', 'wd', 'mmx', 'sg', 'cr', 'dr'))
@@ -650,6 +688,7 @@ def _conds(node, fn):
 
 
 MUTANTS = [
+    ('in-al-dx-66', 'miasmx/arch/ia32_arch.py', "                if name in ['in', 'out'] and \\\n                        dict([_ for _ in a.items() if _[0] != 'txt']) == r_dx:\n                    # neither does the port register of in/out (always dx)\n                    continue\n", "", 'C02.D3'),
     ('asm-offers-undefined-sse', 'miasmx/arch/ia32_arch.py', "        candidate = [c for c in candidate\n                     if not (c.modifs[mmx] and mmx_undefined_form(c, prefix))]\n", "", 'C02.D8'),
     ('far-imm-last-operand', 'miasmx/arch/ia32_arch.py', "                            [imm, ims, u08, s08, u16, s16, u32, s32]]) > 1:\n                        index_im = 0\n", "                            [imm, ims, u08, s08, u16, s16, u32, s32]]) > 1:\n                        index_im = -1\n", 'C02.D7'),
     ('drop-check', 'miasmx/arch/ia32_arch.py',
